@@ -14,6 +14,17 @@ import (
 func init() {
 	extras["race"] = raceMain
 	extras["cacherace"] = cacheRaceMain
+	extras["regexrace"] = func(args []string) { raceOnlyRegex = true; raceMain(args) }
+}
+
+// regexrace: the regular-expression functions over node-set and computed arguments, shared by all
+// goroutines (C16: the functions answer for THEIR context node whatever other goroutines do)
+var raceOnlyRegex bool
+var regexRaceCorpus = []string{
+	`matches(b, '^1')`, `matches(b/@x, '^1')`, `//b[matches(@x, '1')]`, `//b[matches(@x, '^[0-9]$')]/@x`, `replace(b/@x, '1', 'z')`,
+	`replace(//b[2]/@x, '(2)', '[$1]')`, `matches(//b[3]/@x, '^1[0-9]')`, `//*[matches(name(), '^[bc]$')]`, `replace(name(*[1]), 'b', 'q')`,
+	`matches(c, '')`, `count(//b[matches(@x, '2')])`, `//b[replace(@x, '1', '') = '2']`, `matches(., 't')`, `replace(string(@x), '0', 'o')`,
+	`matches(b[2]/@x, concat('^', b[2]/@x, '$'))`, `replace(b[last()]/@x, b[1]/@x, '-')`, `//b[matches(c/b/@x, '3')]`, `matches(*[2]/@x, '^2$') and matches(*[1]/@x, '^1$')`,
 }
 
 // raceCorpus: every query type and every function occurs at least once
@@ -52,14 +63,17 @@ func raceMain(args []string) {
 	root := doc.Parse(`a(@x=0,b(@x=1,c),b(@x=2,c(b(@x=3))),"t",#k,b(@x=12,c,c))`)
 	all := doc.All(root)
 	corpus := append([]string{}, raceCorpus...)
+	if raceOnlyRegex {
+		corpus = append([]string{}, regexRaceCorpus...)
+	}
 	// plus generated expressions of the other properties' fragments
 	g := &G{r: r, predAxes: allAxes}
-	for i := 0; i < 40; i++ {
+	for i := 0; i < 40 && !raceOnlyRegex; i++ {
 		corpus = append(corpus, gen.Str(g.validExpr(), both[i%2]))
 	}
 	// scalar expressions of the other properties' generators and the targeted families
 	gf := &G{r: r, predAxes: flatAxes}
-	for i := 0; i < 60; i++ {
+	for i := 0; i < 60 && !raceOnlyRegex; i++ {
 		var e gen.Ex
 		switch i % 6 {
 		case 0:
